@@ -15,7 +15,7 @@ from __future__ import annotations
 import ast
 
 from .. import sqlmini
-from ..flow import assigned_from, call_name, calls_in, cfg_node_of, func_cfg, names_in, parent_map, self_attr
+from ..flow import assigned_from, call_name, calls_in, cfg_node_of, derived_names, func_cfg, names_in, parent_map, self_attr
 from ..loader import AnalysisError, ClassInfo, FuncInfo, walk_no_nested
 from ..report import Context
 from . import c01
@@ -127,7 +127,9 @@ def r2(ctx: Context) -> None:
     pm = parent_map(f.node)
     p_op, p_gen = f.params[1], f.params[2]
     keys = [n for n in walk_no_nested(f.node) if isinstance(n, ast.Assign) and isinstance(n.value, ast.JoinedStr) and p_op in names_in(n.value)]
-    seq = assigned_from(f.node, lambda v: isinstance(v, ast.Call) and call_name(v) == "_get_next_sequence")
+    # the sequence number: result of the counter helper, or (helper inlined by the loader) a read of the per-executor counters
+    seq = assigned_from(f.node, lambda v: (isinstance(v, ast.Call) and call_name(v) == "_get_next_sequence") or any(isinstance(x, ast.Attribute) and x.attr == "_operation_counters" for x in ast.walk(v)))
+    seq = derived_names(f.node, seq) if seq else seq
     key_name = None
     for k in keys:
         if names_in(k.value) & seq:
